@@ -4,18 +4,10 @@
 //!   vcheck replay <file>
 //! Exit codes: 0 held (known findings only), 1 violation, 2 inconclusive / infrastructure.
 
-mod audit;
-mod crashsim;
-mod dbx;
-mod engine;
-mod panics;
-mod props;
-mod qmodel;
-mod scratch;
-mod sqlmodel;
-mod workload;
 
-use engine::*;
+use vcheck::engine::*;
+#[allow(unused_imports)]
+use vcheck::{audit, crashsim, dbx, engine, panics, props, qmodel, scratch, sqlmodel, workload};
 use serde_json::{Value, json};
 use std::collections::BTreeSet;
 use std::io::Write;
@@ -62,6 +54,8 @@ fn main() {
         Some("run") => supervisor(&args[2..]),
         Some("worker") => worker(&args[2..]),
         Some("replay") => replay(&args[2..]),
+        Some("fuzz-artifact") => fuzz_artifact(&args[2..]),
+        Some("fuzz-corpus") => fuzz_corpus(&args[2..]),
         Some("list") => {
             for p in props::registry() {
                 println!("{}", p.id);
@@ -191,6 +185,221 @@ fn replay(a: &[String]) -> i32 {
             0
         }
     }
+}
+
+
+// ------------------------------------------------------------------------------------------
+// coverage-guided stage (libFuzzer through cargo-fuzz), thorough tier of C16 and C20
+// ------------------------------------------------------------------------------------------
+
+fn fuzz_target_for(id: &str) -> Option<&'static str> {
+    match id {
+        "C16" => Some("sql_exec"),
+        "C20" => Some("wire_decode"),
+        _ => None,
+    }
+}
+
+/// The case a fuzzer input stands for, as (kind, case).
+fn fuzz_case(id: &str, data: &[u8]) -> Option<(&'static str, Value)> {
+    match id {
+        "C16" => {
+            let ex: Vec<String> = Findings::load().excludes("C16").keys().cloned().collect();
+            props::c16::case_from_fuzz_bytes(data, &ex).map(|c| ("inputs", serde_json::to_value(c).unwrap()))
+        }
+        "C20" if !data.is_empty() => Some(("garbage", serde_json::to_value(props::c20::Garbage { target: data[0] % 5, bytes: data[1..].to_vec() }).unwrap())),
+        _ => None,
+    }
+}
+
+/// `vcheck fuzz-corpus <Cnn> <dir>`: writes the seed inputs of the property's fuzz target.
+fn fuzz_corpus(a: &[String]) -> i32 {
+    let (Some(id), Some(dir)) = (a.first(), a.get(1)) else { return 2 };
+    let seeds: Vec<Vec<u8>> = match id.as_str() {
+        "C16" => props::c16::fuzz_seed_corpus(),
+        "C20" => props::c20::fuzz_seed_corpus(),
+        _ => vec![],
+    };
+    let _ = std::fs::create_dir_all(dir);
+    for (i, s) in seeds.iter().enumerate() {
+        let _ = std::fs::write(Path::new(dir).join(format!("seed-{i:03}")), s);
+    }
+    println!("{} seed inputs", seeds.len());
+    0
+}
+
+/// `vcheck fuzz-artifact <Cnn> <file>`: decodes a libFuzzer artifact into the case it stands for, runs it here and
+/// classifies the outcome. Exit 0: passes or fails in the way an open finding describes; 1: fails (replay written).
+fn fuzz_artifact(a: &[String]) -> i32 {
+    let (Some(id), Some(file)) = (a.first(), a.get(1)) else { return 2 };
+    let Some(p) = find_prop(id) else { return 2 };
+    let Ok(data) = std::fs::read(file) else { return 2 };
+    let Some((kind, case)) = fuzz_case(id, &data) else {
+        println!("PASS (input too short to stand for a case)");
+        return 0;
+    };
+    let mut r = Replay { property: id.clone(), kind: kind.into(), case: case.clone(), failure: None, tier: Some("fuzz".into()), seed: None, shard: None, shrunk_from: None, note: Some(format!("decoded from the libFuzzer artifact {file}")) };
+    let path = write_replay(&r);
+    println!("REPLAY {}", path.display());
+    panics::install();
+    set_mem_limit();
+    start_watchdog(None);
+    call_begin(|| format!("fuzz artifact {file}"));
+    let out = (p.replay)(kind, &case);
+    call_end();
+    scratch::cleanup_pid(std::process::id());
+    match out.failure {
+        None => {
+            println!("PASS");
+            0
+        }
+        Some(f) => {
+            if let Some(k) = Findings::load().match_open(id, &f) {
+                println!("KNOWN {}", k.id);
+                return 0;
+            }
+            println!("FAIL clause={} tags={:?}\n  {}", f.clause, f.tags, f.detail);
+            r.failure = Some(f);
+            let _ = std::fs::write(&path, serde_json::to_string_pretty(&r).unwrap());
+            1
+        }
+    }
+}
+
+struct FuzzOutcome {
+    stats: Value,
+    violations: Vec<ViolationRec>,
+    infra: Vec<String>,
+    execs: u64,
+}
+
+/// Builds the property's libFuzzer target against /repo's working tree, runs it in fork mode for `secs` seconds
+/// from the seed corpus, and re-runs every artifact it leaves in a fresh process.
+fn fuzz_stage(id: &str, target: &str, seed: u64, secs: u64, jobs: usize, exe: &Path) -> FuzzOutcome {
+    let mut o = FuzzOutcome { stats: json!({}), violations: vec![], infra: vec![], execs: 0 };
+    let home = verif_dir();
+    let hdir = Path::new(&home).join("harness");
+    let work = Path::new(&home).join("out/fuzz").join(id);
+    let _ = std::fs::remove_dir_all(&work);
+    let corpus = work.join("corpus");
+    let arts = work.join("artifacts");
+    let _ = std::fs::create_dir_all(&corpus);
+    let _ = std::fs::create_dir_all(&arts);
+    let t0 = Instant::now();
+    let build = Command::new("cargo").args(["+nightly", "fuzz", "build", "-s", "none", target]).current_dir(&hdir).env("CARGO_NET_OFFLINE", "true").env("RUSTFLAGS", "").stdin(Stdio::null()).output();
+    match build {
+        Ok(b) if b.status.success() => {}
+        Ok(b) => {
+            let e = String::from_utf8_lossy(&b.stderr);
+            let tail: Vec<&str> = e.lines().rev().take(12).collect();
+            o.infra.push(format!("fuzz stage: `cargo +nightly fuzz build {target}` failed: {}", tail.into_iter().rev().collect::<Vec<_>>().join(" | ")));
+            return o;
+        }
+        Err(e) => {
+            o.infra.push(format!("fuzz stage: cannot run cargo fuzz: {e}"));
+            return o;
+        }
+    }
+    let build_s = t0.elapsed().as_secs_f64();
+    let _ = Command::new(exe).args(["fuzz-corpus", id]).arg(&corpus).stdout(Stdio::null()).status();
+    let seeds = std::fs::read_dir(&corpus).map(|d| d.count()).unwrap_or(0);
+    let log_path = work.join("fuzz.log");
+    let log = std::fs::File::create(&log_path).expect("fuzz log");
+    let log2 = log.try_clone().expect("log clone");
+    // libFuzzer: seed 0 means "random"
+    let lf_seed = (seed % 0x7fff_ffff) + 1;
+    let st = Command::new("cargo")
+        .args(["+nightly", "fuzz", "run", "-s", "none", target])
+        .arg(&corpus)
+        .arg("--")
+        .args([
+            format!("-fork={}", jobs.max(1)),
+            format!("-max_total_time={secs}"),
+            format!("-seed={lf_seed}"),
+            "-timeout=60".to_string(),
+            "-rss_limit_mb=6144".to_string(),
+            "-len_control=0".to_string(),
+            "-max_len=4096".to_string(),
+            "-ignore_crashes=0".to_string(),
+            "-ignore_timeouts=0".to_string(),
+            "-ignore_ooms=0".to_string(),
+            format!("-artifact_prefix={}/", arts.display()),
+        ])
+        .current_dir(&hdir)
+        .env("CARGO_NET_OFFLINE", "true")
+        .env("VERIF_HOME", &home)
+        .env("RUST_BACKTRACE", "0")
+        .stdin(Stdio::null())
+        .stdout(Stdio::null())
+        .stderr(Stdio::from(log2))
+        .status();
+    drop(log);
+    let text = std::fs::read_to_string(&log_path).unwrap_or_default();
+    // fork mode progress lines: "#123: cov: 10 ft: 20 corp: 5 exec/s 7 oom/timeout/crash: 0/0/0 time: 9s job: 3 dft_time: 0"
+    let mut last: Option<(u64, u64, u64, u64, String)> = None;
+    for l in text.lines() {
+        let Some(rest) = l.strip_prefix('#') else { continue };
+        let Some((n, tail)) = rest.split_once(": cov: ") else { continue };
+        let Ok(n) = n.trim().parse::<u64>() else { continue };
+        let num_after = |key: &str| -> u64 { tail.split(key).nth(1).and_then(|x| x.trim().split_whitespace().next()).and_then(|x| x.parse().ok()).unwrap_or(0) };
+        let cov = tail.split_whitespace().next().and_then(|x| x.parse().ok()).unwrap_or(0);
+        let otc = tail.split("oom/timeout/crash: ").nth(1).and_then(|x| x.split_whitespace().next()).unwrap_or("").to_string();
+        last = Some((n, cov, num_after("ft: "), num_after("corp: "), otc));
+    }
+    let mut artifacts: Vec<PathBuf> = std::fs::read_dir(&arts).map(|d| d.filter_map(|e| e.ok().map(|e| e.path())).collect()).unwrap_or_default();
+    artifacts.sort();
+    let (execs, cov, ft, corp, otc) = last.clone().unwrap_or((0, 0, 0, 0, String::new()));
+    o.execs = execs;
+    if last.is_none() {
+        o.infra.push(format!("fuzz stage: no progress line in {} (exit {:?})", log_path.display(), st.as_ref().ok().and_then(|s| s.code())));
+    }
+    let mut reproduced = 0;
+    let mut known = 0;
+    for a in artifacts.iter().take(8) {
+        let outp = Command::new(exe).args(["fuzz-artifact", id]).arg(a).env("RUST_BACKTRACE", "0").stdin(Stdio::null()).output();
+        let Ok(outp) = outp else { continue };
+        let so = String::from_utf8_lossy(&outp.stdout).to_string();
+        let replay = so.lines().find_map(|l| l.strip_prefix("REPLAY ")).unwrap_or("").to_string();
+        match outp.status.code() {
+            Some(0) => {
+                if so.contains("KNOWN ") {
+                    known += 1;
+                } else {
+                    o.infra.push(format!("fuzz stage: artifact {} did not reproduce in a fresh process", a.display()));
+                }
+            }
+            Some(1) => {
+                reproduced += 1;
+                let clause = so.lines().find_map(|l| l.strip_prefix("FAIL clause=")).and_then(|l| l.split_whitespace().next()).unwrap_or("fuzz_failure").to_string();
+                let detail = so.lines().skip_while(|l| !l.starts_with("FAIL")).skip(1).take(12).collect::<Vec<_>>().join("\n");
+                o.violations.push(ViolationRec { replay, clause, detail, tags: vec!["stage.fuzz".into()] });
+            }
+            other => {
+                // the case kills or hangs the process that runs it
+                reproduced += 1;
+                o.violations.push(ViolationRec { replay, clause: "process_died".into(), detail: format!("replaying the fuzzer artifact {} ended with {:?}", a.display(), other), tags: vec!["stage.fuzz".into()] });
+            }
+        }
+    }
+    o.stats = json!({
+        "engine": "libFuzzer (cargo-fuzz, fork mode, sanitizer none: the engine installs jemalloc as global allocator)",
+        "target": format!("harness/fuzz/fuzz_targets/{target}.rs"),
+        "build_s": build_s,
+        "seconds": secs,
+        "jobs": jobs,
+        "libfuzzer_seed": lf_seed,
+        "seed_corpus_files": seeds,
+        "executions": execs,
+        "coverage_edges": cov,
+        "features": ft,
+        "corpus_units_at_end": corp,
+        "oom_timeout_crash": otc,
+        "artifacts": artifacts.len(),
+        "artifacts_reproduced_as_violations": reproduced,
+        "artifacts_matching_open_findings": known,
+        "note": "campaigns are pinned only approximately by -seed in fork mode; the saved replay file is the reproducible unit",
+    });
+    o
 }
 
 // ------------------------------------------------------------------------------------------
@@ -338,6 +547,18 @@ fn supervisor(a: &[String]) -> i32 {
             } else {
                 i += 1;
             }
+        }
+    }
+
+    // ---- coverage-guided stage ----
+    if let Some(target) = fuzz_target_for(p.id) {
+        let secs: u64 = std::env::var("VERIF_FUZZ_S").ok().and_then(|s| s.parse().ok()).unwrap_or(tier.pick(0, 900));
+        if secs > 0 {
+            let fo = fuzz_stage(p.id, target, seed, secs, parallel, &exe);
+            merged.evaluations += fo.execs;
+            merged.violations.extend(fo.violations);
+            infra.extend(fo.infra);
+            merged.extra.insert("fuzz_stage".into(), fo.stats);
         }
     }
 
